@@ -461,6 +461,19 @@ def norm_divisions_guarded(ctx, rule='division-by-norm-guarded'):
                     leaves = bool(kids) and (kids[-1]['k'] in ('ReturnStmt',) or any(y['k'] == 'CXXThrowExpr' for y in fn.walk(kids[-1])))
                     if leaves and paths.dominated_by(fn, fn.pos_of(x), lambda n_, i=i: fn.within(n_, i['cond'])):
                         ok = True
+            # ... and, when the vector is the image of an UNNORMALISED user vector under the operator (init: A * v0), its squares
+            # can overflow although its entries are finite (|A| |v0| > 1e154): the norm is inf and the division gives the zero
+            # vector.  The norm must then be tested for finiteness (the failing branch rescales) or be an overflow-safe norm.
+            is_param_norm = any(fn.locals[v_]['name'] in what.replace('m_op', '') for v_ in fn.params)
+            if ok and fn.name == 'init' and not is_param_norm and 'perform_op' in ' '.join(fn.s(y)[:40] for y in fn.walk() if y['k'] == 'CXXMemberCallExpr' and y.get('callee') == 'perform_op' and y['l'] < x['l']):
+                fin = [i_ for i_ in fn.walk() if i_['k'] == 'IfStmt' and 'isfinite' in show(sym(fn, i_['cond'], inline=False)) and nm in show(sym(fn, i_['cond'], inline=False))]
+                safe = any(k_ in what for k_ in ('stableNorm', 'blueNorm', 'hypotNorm'))
+                if not safe and not any(paths.dominated_by(fn, fn.pos_of(x), lambda n_, i_=i_: fn.within(n_, i_['cond'])) for i_ in fin):
+                    ok = False
+                    ctx.check(False, rule, '%s::%s/%s' % (fn.cls.replace('Spectra::', ''), fn.name, nm), fn.qname,
+                              '`%s` divides by %s = %s, the norm of the image of the caller\'s unnormalised vector, with no test that it is finite: for |A| |v0| above 1e154 (1.8e19 in float) '
+                              'the squares overflow while every entry is finite, the norm is inf, the first basis vector becomes zero and a Ritz value 0 with a zero vector is reported as converged' % (fn.s(x)[:30], nm, what))
+                    continue
             ctx.check(ok, rule, '%s::%s/%s' % (fn.cls.replace('Spectra::', ''), fn.name, nm), fn.qname,
                       '`%s` is reached only when %s is not below the zero threshold' % (fn.s(x)[:30], nm) if ok else
                       '`%s` divides by %s = %s with no test of it: when that vector is exactly zero (the operator maps the start vector to zero: zero matrix, nilpotent or rank-deficient '
